@@ -109,6 +109,23 @@ impl SimTarget for Value {
             drop(t);
         }
         let _ = self.traverse().take(n / 3 + 1).filter(|(_, f)| f.is_entry()).count();
+        // the same walk by hand through the public building block, `FragmentRef::sub_fragments()`, consumed
+        // front to back, back to front and from both ends in turn: it has to end (the bound is generous:
+        // the traversal above visited n fragments)
+        for style in 0..3 {
+            let limit = 4 * n + 64;
+            let mut pushed = 0usize;
+            let mut stack = vec![json_syntax::FragmentRef::Value(self)];
+            while let Some(f) = stack.pop() {
+                let mut it = f.sub_fragments();
+                let mut turn = 0usize;
+                loop {
+                    let next = match style { 0 => it.next(), 1 => it.next_back(), _ => { turn += 1; if turn % 2 == 1 { it.next() } else { it.next_back() } } };
+                    match next { Some(s) => { stack.push(s); pushed += 1; } None => break }
+                    if pushed > limit { panic!("walking the value by hand through sub_fragments() (style {}) does not end: more than {} fragments where traverse() has {}", style, limit, n); }
+                }
+            }
+        }
         n
     }
     fn dispose(self) { drop_iteratively(self) }
